@@ -729,6 +729,36 @@ def _self_mutations(trees, owner, name, mutators):
     return sites
 
 
+def _escape_sites(trees, owner, name):
+    """places where a class-level mutable container escapes under another name (`self.x = Owner.name`,
+    `f(Owner.name)`, `return Owner.name`, `[Owner.name]`): every later mutation through the alias is a mutation of
+    process-wide state, so an escaping container counts as shared state even without a direct mutation site"""
+    sites = []
+    for rel, tree in trees.items():
+        for parent in ast.walk(tree):
+            kids = []
+            if isinstance(parent, ast.Assign):
+                kids = [parent.value]
+            elif isinstance(parent, ast.AnnAssign) and parent.value is not None:
+                kids = [parent.value]
+            elif isinstance(parent, ast.Return) and parent.value is not None:
+                kids = [parent.value]
+            elif isinstance(parent, ast.Call):
+                kids = list(parent.args) + [k.value for k in parent.keywords]
+            elif isinstance(parent, (ast.List, ast.Tuple, ast.Set)):
+                kids = list(parent.elts)
+            elif isinstance(parent, ast.Dict):
+                kids = [v for v in parent.values if v is not None]
+            for k in kids:
+                if isinstance(k, ast.Attribute) and k.attr == name and isinstance(k.value, ast.Name) \
+                        and k.value.id in (owner, "cls") and isinstance(k.ctx, ast.Load):
+                    if k.value.id == "cls":
+                        # only inside the owner class
+                        continue
+                    sites.append("alias:%s:%d" % (rel, getattr(parent, "lineno", 0)))
+    return sites
+
+
 def gen_shared_state():
     """class-level and module-level state with at least one mutation site in the code base.
     Kinds: class-body containers / counters / distributors; module-level containers; module variables rebound
@@ -788,6 +818,7 @@ def gen_shared_state():
                     sites.append("%s:%d" % (rel2, n.lineno))
         if kind == "class" and container:
             sites += _self_mutations(trees, owner, name, mutators)
+            sites += _escape_sites(trees, owner, name)
         if sites:
             inventory.append({"kind": kind, "file": rel, "owner": owner, "name": name, "sites": sorted(set(sites))})
     # args fields assigned outside isoquant.py
